@@ -69,6 +69,30 @@ class Part:
     def validated(self, n=1):
         self.validated_n += n
 
+    def witness(self, driver, params, key, desc):
+        """Path witness: run the property's concrete driver (real library) on a solver model of a path whose
+        obligations all hold.  Agreement is counted as a validated trace; a failure there is a candidate violation
+        (replayed like any other) - the harness said 'holds' where the real code does not."""
+        import contextlib
+        import importlib
+        import io
+        import json
+        mod = importlib.import_module(f"symx.concrete.{driver}")
+        buf = io.StringIO()
+        try:
+            with contextlib.redirect_stdout(buf), contextlib.redirect_stderr(buf):
+                rc = mod.main(json.loads(json.dumps(params)))
+        except BaseException as e:  # noqa: BLE001
+            self.inconcl.append(f"path witness {key}: driver raised {type(e).__name__}: {e}")
+            return False
+        if rc == 0:
+            self.validated_n += 1
+            return True
+        src = (f"import sys, json\nfrom symx.concrete import {driver}\n"
+               f"sys.exit({driver}.main(json.loads({json.dumps(json.dumps(params))})))\n")
+        self.cands.append((key, f"{desc}: the real library breaks the property on a witness of a path the harness decided as holding: {buf.getvalue()[-300:]}", src, params))
+        return False
+
     def inconclusive_(self, msg):
         self.inconcl.append(str(msg))
 
